@@ -40,6 +40,9 @@ def prepare():
 
 
 # ------------------------------------------------------------------ SEQ world
+REPORT = "eliot:destination_failure"
+
+
 def gen_history(st, cfg):
     ops = []
     nid = [0]
@@ -100,9 +103,23 @@ def run_seq(rc, ops):
                 state["extra_at"] = state["logged"]
                 e.add_destinations(tap("extra"))
 
+    class FlakyTap(Tap):
+        calls = 0
+
+        def __call__(self_, message):
+            Tap.__call__(self_, message)
+            self_.calls += 1
+            fl = cfg["flaky"]
+            if fl[1] < self_.calls <= fl[1] + fl[2] and message.get("message_type") != REPORT:
+                rc.count_fault("dest_raise")
+                raise RuntimeError("transient outage of d%s" % fl[0])
+
     def tap(i):
         if i not in taps:
-            taps[i] = (ReTap if (i == state.get("retap")) else Tap)(rc, "d%s" % i, deep=True)
+            cls = ReTap if (i == state.get("retap")) else Tap
+            if cfg.get("flaky") and cfg["flaky"][0] == i and cls is Tap:
+                cls = FlakyTap
+            taps[i] = cls(rc, "d%s" % i, deep=True)
             expect[i] = []
         return taps[i]
 
@@ -176,7 +193,7 @@ def run_seq(rc, ops):
     finally:
         seams.end_run()
     for i, t in sorted(taps.items(), key=lambda kv: str(kv[0])):
-        got = [(r.msg.get("nid"), r.msg) for r in t.records]
+        got = [(r.msg.get("nid"), r.msg) for r in t.records if r.msg.get("message_type") != REPORT]
         want = expect[i]
         gn = [n for n, _m in got]
         wn = [n for n, _g in want]
@@ -322,6 +339,9 @@ def draw_cfg(st):
         cfg["n_ops"] = 5 + st.choose(56, "n_ops")
         cfg["bulk"] = st.choose(7, "bulk") == 6
         cfg["reentrant_add"] = st.choose(4, "reentrant_add") == 3
+        # a destination with a transient outage: raises on calls a .. a+n-1 (it still counts as offered)
+        cfg["flaky"] = [st.choose(3, "flaky-dest"), st.choose(6, "flaky-from"), 1 + st.choose(5, "flaky-len")] \
+            if st.choose(4, "flaky") == 3 else None
     else:
         cfg["n_loggers"] = 1 + st.choose(2, "n_loggers")
         cfg["per_logger"] = 1 + st.choose(5, "per_logger")
